@@ -460,6 +460,33 @@ def _dataset(rng, cls, n, m, names, nmax, mmax):
                     r.append([e])
             ds.append(r)
         return ds
+    if cls == "D20":     # blocks with cyclic majorities whose members FIRST appear together in one tied bucket, over int
+        # labels that collide in small hash tables: the iteration order of a bucket differs from the order of its
+        # projection on a component (element <-> id correspondences that rely on set order break here)
+        pool = [0, 1, 2, 3, 4, 5, 6, 7, 8, 9, 16, 17, 24, 32, 40, 13, 21]
+        n = min(len(names), len(pool)) if names else rng.randint(5, 9)
+        labels = rng.sample(pool, n)
+        blocks, at = [], 0
+        while at < n:
+            sz = min(n - at, rng.choice([3, 3, 4]))
+            blocks.append(labels[at:at + sz])
+            at += sz
+        first = []
+        for blk in blocks:
+            if first and rng.random() < 0.35:
+                first[-1] = first[-1] + list(blk)
+            else:
+                first.append(list(blk))
+        ds = [first]
+        for i in range(rng.choice([3, 3, 6])):
+            r = []
+            for blk in blocks:
+                kk = i % len(blk)
+                r.extend([[e] for e in blk[kk:] + blk[:kk]])
+            ds.append(r)
+        if rng.random() < 0.4:
+            ds.append([list(b) for b in first])
+        return ds
     if cls == "D18":     # print twins: different complete rankings whose textual forms coincide (names made of the
         twins = ["x", "x, x", "x, x, x"]      # separators a bucket is printed with)
         extra = [e for e in ["w", "a", 7, "k_9"] if rng.random() < 0.4]
